@@ -684,6 +684,17 @@ fn map_indexes_by_mask<const D: usize>(indexes: [usize; D], masks: &[IndexRange;
     mapped
 }
 
+fn map_indexes_by_mask_checked<const D: usize>(
+    indexes: [usize; D],
+    masks: &[IndexRange; D],
+) -> Option<[usize; D]> {
+    let mut mapped = [0; D];
+    for (d, (r, i)) in masks.iter().zip(indexes.into_iter()).enumerate() {
+        mapped[d] = r.try_mask(i)?;
+    }
+    Some(mapped)
+}
+
 // # Safety
 //
 // The type implementing TensorRef must implement it correctly, so by delegating to it
@@ -698,7 +709,7 @@ where
 {
     fn get_reference(&self, indexes: [usize; D]) -> Option<&T> {
         self.source
-            .get_reference(map_indexes_by_mask(indexes, &self.mask))
+            .get_reference(map_indexes_by_mask_checked(indexes, &self.mask)?)
     }
 
     fn view_shape(&self) -> [(Dimension, usize); D] {
@@ -740,7 +751,7 @@ where
 {
     fn get_reference_mut(&mut self, indexes: [usize; D]) -> Option<&mut T> {
         self.source
-            .get_reference_mut(map_indexes_by_mask(indexes, &self.mask))
+            .get_reference_mut(map_indexes_by_mask_checked(indexes, &self.mask)?)
     }
 
     unsafe fn get_reference_unchecked_mut(&mut self, indexes: [usize; D]) -> &mut T {
